@@ -4,6 +4,7 @@
 -/
 import Model
 import Model.Merge
+import Model.MapSpec
 open Esdt
 
 def bytesToString (b : Bytes) : String := String.ofList (b.map fun x => Char.ofNat x.toNat)
@@ -204,6 +205,37 @@ def fmtOA (h : Heap) (o : OA) : String :=
   let dep := match o.deployer with | none => "n" | some d => if d.isEmpty then "-" else hx d
   joinWith ";" [hx o.address, toString o.nonce, optInt (o.balance.map h.get), optInt (o.delta.map h.get),
     joinWith "," st, hx o.code, hx o.codeMeta, dep, joinWith "." (o.transfers.map intStr), toString o.gasUsed]
+
+/-- `mapseq <op> …`: the operations run one after the other on an empty map through `Lin.mapSpec` (keys and values are
+    natural numbers): `g:k` `i:k:v` `s:k:v` `r:k` `l` `k`; one output per operation -/
+def opMapSeq (toks : List String) : String :=
+  let parse (t : String) : Option (Lin.MapOp Nat Nat) :=
+    match t.splitOn ":" with
+    | ["g", k] => k.toNat?.map .get
+    | ["i", k, v] => match k.toNat?, v.toNat? with | some a, some b => some (.insert a b) | _, _ => none
+    | ["s", k, v] => match k.toNat?, v.toNat? with | some a, some b => some (.set a b) | _, _ => none
+    | ["r", k] => k.toNat?.map .remove
+    | ["l"] => some .len
+    | ["k"] => some .keys
+    | _ => none
+  let show_ (o : Lin.MapOut Nat Nat) : String :=
+    match o with
+    | .val none => "-"
+    | .val (some v) => toString v
+    | .ok b => if b then "1" else "0"
+    | .unit => "."
+    | .num n => toString n
+    | .list l => "[" ++ "+".intercalate ((l.toArray.qsort (· < ·)).toList.map toString) ++ "]"
+  let rec go (m : List (Nat × Nat)) (ts : List String) (acc : List String) : Option (List String) :=
+    match ts with
+    | [] => some acc.reverse
+    | t :: rest =>
+      match parse t with
+      | none => none
+      | some op => let r := (Lin.mapSpec (κ := Nat) (ν := Nat)).apply m op; go r.1 rest (show_ r.2 :: acc)
+  match go [] toks [] with
+  | some outs => "ok " ++ " ".intercalate outs
+  | none => "badop"
 
 def opMergeSeq (toks : List String) : String :=
   match toks.mapM parseOA with
@@ -550,6 +582,7 @@ def step (w : World) (line : String) : World × String :=
       | some r => (w, "ok " ++ toString r)
       | none => (w, "err")
     | _ => (w, "badop")
+  else if cmd == "mapseq" then (w, opMapSeq rest)
   else if cmd == "mergeseq" then (w, opMergeSeq rest)
   else (w, "badop")
 
